@@ -1,3 +1,4 @@
+import RsyncModel.PureTie
 import RsyncModel.DeleteThm
 /-! # C09 — `--delete` removes exactly the extraneous entries and nothing else
 
@@ -81,5 +82,14 @@ theorem D26_counterexample :
   constructor
   · simp [delWalkV, under, joined, Utf8.valid]
   · simp [delWalk, under]
+
+
+/-! ### Tie to the source (regenerated translation `Gen.Pure`) -/
+
+/-- the guard at the top of `deleteFiles`, translated from /repo on every run: deletion is skipped
+exactly when the I/O error flag the sender reported is positive — *any* positive value, not one bit
+of it (with `delete_nothing`: then nothing is removed) -/
+theorem source_io_error_guard (v : Int32) : Gen.Pure.deleteGuard v false = decide (0 < v.toInt) :=
+  PureTie.deleteGuard_tied v
 
 end C09
